@@ -10,7 +10,12 @@ def pure_sources(world):
 
 
 def store_owner(world):
-    return {n["store"]: n["id"] for n in world["nodes"] if n.get("store")}
+    """store name -> the node that writes it (a store may also be read through further source entries)."""
+    out = {}
+    for n in world["nodes"]:
+        if n.get("store") and (n["store"] not in out or n["kind"] != "src"):
+            out[n["store"]] = n["id"]
+    return out
 
 
 def faulty(op):
@@ -42,7 +47,9 @@ def o_fromscratch(rec, world, hist):
             out.append(V("store-missing-after-run", f"store {name} holds nothing after a successful run"))
             return out
         got = hist.disk.value(name)
-        if not typed_equal(got, stores[name]):
+        # (by value and exact types: what a store holds may have been written by an earlier process lifetime, so
+        #  opaque argument objects inside it are compared by their label, not by identity)
+        if canon(got) != canon(stores[name]):
             out.append(V("incremental-store", f"store {name} holds {canon(got)[:200]} after a successful run; "
                                               f"from scratch: {canon(stores[name])[:200]}"))
             return out
@@ -108,9 +115,13 @@ def o_exact(rec, world, hist):
     if exp_reads - set(read):
         out.append(V("missing-read", f"stores {sorted(exp_reads - set(read))} are consumed but were never read"))
         return out
-    multi = [k for k, c in read.items() if c != 1]
+    # (a store is read at most once per registry entry that is consumed - one store object may sit behind two entries)
+    allowed = {}
+    for i in reads:
+        allowed[nodes[i]["store"]] = allowed.get(nodes[i]["store"], 0) + 1
+    multi = [k for k, c in read.items() if c > allowed.get(k, 1)]
     if multi:
-        out.append(V("read-twice", f"stores read more than once: {multi}"))
+        out.append(V("read-twice", f"stores read more often than they have consumed registry entries: {multi}"))
     return out
 
 
@@ -175,6 +186,8 @@ def o_writeread(rec, world, hist):
     effect = {name: seqs[0] for name, seqs in ix.effects.items()}
     for name, eseq in effect.items():
         n = owner[name]
+        if nodes[n]["kind"] != "call":
+            continue   # (a literal or a gather result with a value store: no user call produces it)
         ce = ix.ok_end(n)
         if ce is None or ce > wstart[name]:
             out.append(V("write-before-compute", f"store {name} was written (seq {wstart[name]}) before its call {n} "
